@@ -179,7 +179,7 @@ def removeExpiredAo (p : Params) : Nat → UState → Nat → Nat → UState × 
         | none => removeExpiredAo p fuel { s with prob := rest } c w
       else (s, c, w)
 
-def EVICTION_BATCH_SIZE : Nat := 100
+def EVICTION_BATCH_SIZE : Nat := Gen.UNSYNC_EVICTION_BATCH_SIZE
 
 /-- `evict_expired(now)`. -/
 def evictExpired (p : Params) (s : UState) : UState :=
